@@ -279,6 +279,8 @@ pub fn check_advertising(t: &Torrent, o: &Outcome, stats: &mut HashMap<&'static 
         // left out only for a piece the peer itself has advertised (telling a peer what it already
         // has is optional; the property is about early, lost and overtaken announcements)
         let want: Vec<usize> = comps.iter().filter(|c| c.0 > spawn_seq).map(|c| c.1).collect();
+        // a piece finished a second time (end game) may or may not be announced again
+        let repeat: Vec<bool> = comps.iter().filter(|c| c.0 > spawn_seq).map(|c| comps.iter().any(|d| d.1 == c.1 && d.0 < c.0)).collect();
         let haves: Vec<(u64, usize)> = conn_events.iter().filter_map(|e| match &e.kind { EvKind::Send { msg: Msg::Have(i), .. } => Some((e.seq, *i as usize)), _ => None }).collect();
         let mut peer_has = vec![false; t.n()];
         for e in &conn_events {
@@ -292,14 +294,14 @@ pub fn check_advertising(t: &Torrent, o: &Outcome, stats: &mut HashMap<&'static 
         for (k, (hseq, i)) in haves.iter().enumerate() {
             *stats.entry("have_frames_checked").or_default() += 1;
             let mut q = p;
-            while q < want.len() && want[q] != *i && peer_has[want[q]] { q += 1; }
+            while q < want.len() && want[q] != *i && (peer_has[want[q]] || repeat[q]) { q += 1; }
             if q >= want.len() || want[q] != *i {
                 let sig = if !comps.iter().any(|c| c.1 == *i && c.0 < *hseq) { "C11:have-before-verified" } else { "C11:have-out-of-order-or-duplicated" };
                 return Some(Finding { sig: sig.into(), what: format!("Have({}) is frame #{} of Have announcements to {}, completion order since it connected is {:?} (next expected: #{})", i, k, a, want, p), at_seq: *hseq });
             }
             p = q + 1;
         }
-        let undelivered: Vec<usize> = want[p.min(want.len())..].iter().copied().filter(|i| !peer_has[*i]).collect();
+        let undelivered: Vec<usize> = (p.min(want.len())..want.len()).filter(|q| !peer_has[want[*q]] && !repeat[*q]).map(|q| want[q]).collect();
         // completeness at the end: peer's last choke-state message to us is Unchoke (sent > 1 s before the end)
         if !closed && init.is_some() {
             let last_state = conn_events.iter().rev().find_map(|e| match &e.kind { EvKind::PeerSent { msg: Some(Msg::Unchoke), .. } => Some((true, e.ms)), EvKind::PeerSent { msg: Some(Msg::Choke), .. } => Some((false, e.ms)), _ => None });
